@@ -1,9 +1,306 @@
 package props
 
-import "verif/internal/core"
+import (
+	"encoding/base64"
+	"encoding/json"
+	"fmt"
+	"math/rand"
+	"path/filepath"
+	"strings"
+	"time"
 
-// C13 — stub, replaced by the real check.
+	"verif/internal/core"
+)
+
+type c13Case struct {
+	ID       string      `json:"id"`
+	Kind     string      `json:"kind"`
+	Class    string      `json:"class"`
+	B64      string      `json:"b64"`
+	Rewrite  bool        `json:"rewrite"`
+	Host     string      `json:"host"`
+	Method   string      `json:"method,omitempty"`
+	Target   string      `json:"target,omitempty"`
+	Headers  [][2]string `json:"headers,omitempty"`
+	ShimPath string      `json:"shim_path,omitempty"`
+	Status   int         `json:"status,omitempty"`
+	Seed     int64       `json:"seed,omitempty"`
+	Info     bool        `json:"info,omitempty"`
+}
+
+type c13Result struct {
+	ID         string   `json:"id"`
+	Status     int      `json:"status"`
+	Dials      []string `json:"dials"`
+	URI        string   `json:"uri"`
+	Want       []string `json:"want"`
+	ParseErr   bool     `json:"parse_err"`
+	Connected  bool     `json:"connected"`
+	Reached    bool     `json:"reached"`
+	Violations []string `json:"violations"`
+	Note       string   `json:"note"`
+}
+
+type c13Entry struct{ class, url string }
+
+// c13Corpus enumerates the URL syntax classes. "evil" hosts never resolve
+// here; the harness refuses any dial that is not the backend anyway.
+func c13Corpus() []c13Entry {
+	long := strings.Repeat("a", 70000)
+	var out []c13Entry
+	add := func(class string, urls ...string) {
+		for _, u := range urls {
+			out = append(out, c13Entry{class, u})
+		}
+	}
+	add("absolute-ws", "ws://evil.example/a/b?x=1", "ws://evil.example", "ws://evil.example/", "WS://EVIL.EXAMPLE/Upper")
+	add("absolute-wss", "wss://evil.example/a", "wss://evil.example:443/a?b=c")
+	add("absolute-http", "http://evil.example/", "https://evil.example:8443/p?q", "http://evil.example/a%2Fb/c?d=%2F")
+	add("absolute-other-scheme", "ftp://evil.example/f", "gopher://evil.example/1", "foo+bar-1.0://evil.example/x", "file:///etc/passwd", "unix:///var/run/docker.sock")
+	add("scheme-relative", "//evil.example/x", "//evil.example:81/x?y", "//evil.example", "//evil.example//double")
+	add("path-only", "/", "/socket", "/a/b/c?x=1&y=2", "/a%2Fb/c", "/a b", "/ä/ö?ü=ß", "/a/../b", "/./a", "/a//b", "/*", "*", "relative/path", "../up", "?only=query", "/x?", "/x?a=b?c=d", "/x?a=%zz", "/api/kernels/1234/channels?session_id=abc", "/x;params=1", "/%E4%B8%AD", "/a+b?c+d", "/a:b", "a:80/b")
+	add("opaque", "x:y", "mailto:a@b", "javascript:alert(1)", "urn:isbn:123", "x:y?q=1", "ws:evil.example/x", "http:evil.example", "data:text/plain,hi", "tel:+1-555", "wss:evil.example:443", "x:y#frag", "a.b+c-d:opaque/with/slashes?and=query")
+	add("empty", "")
+	add("userinfo", "ws://user:pw@evil.example/", "ws://user@evil.example/x", "//u:p@evil.example/x", "http://evil.example@127.0.0.1/x", "ws://127.0.0.1:1@evil.example/", "ws://:@evil.example/", "ws://u:p%40x@evil.example/")
+	add("ip-literal", "ws://10.1.2.3/x", "ws://169.254.169.254/computeMetadata/v1/", "ws://[::1]/x", "ws://[::1]:81/x", "ws://[fe80::1%25eth0]/x", "ws://0/x", "ws://0x7f.1/x", "ws://2130706433/x", "ws://127.0.0.1:22/x", "ws://[::ffff:10.0.0.1]/x", "ws://localhost:6379/x")
+	add("port", "ws://evil.example:0/x", "ws://evil.example:65535/x", "ws://evil.example:99999/x", "ws://evil.example:/x", "ws://evil.example:080/x", "ws://evil.example:-1/x", "ws://evil.example:8o/x")
+	add("percent-host", "ws://evil%2Eexample/x", "ws://%65vil.example/x", "ws://evil.example%2F@x/", "ws://%00/x", "ws://evil.example%3A81/x", "ws://%5B::1%5D/x")
+	add("backslash", "ws://evil.example\\@127.0.0.1/x", "\\\\evil.example\\x", "/\\evil.example/x", "ws:\\\\evil.example\\x", "ws://evil.example\\.other/x", "/a\\..\\b")
+	add("odd-slashes", "http:/x", "http:///x", "http:////evil.example/x", "ws:///x", "://x", ":", "ws:/", "ws://", "///x", "////evil.example")
+	add("fragment", "/x#frag", "ws://evil.example/x#@127.0.0.1", "/x?y#z?w", "#only", "/x#", "//evil.example#/x")
+	add("crlf", "/x\r\nHost: evil.example", "/x%0d%0aHost:%20evil", "ws://evil.example/\r\n\r\nGET /admin", "/x\ny", "/x?q=1\r\nX-Injected: 1", "/x%0D%0A%0D%0AGET%20/admin")
+	add("very-long", "/"+long, "ws://"+strings.Repeat("e", 5000)+".example/x", "/x?"+long, "ws://evil.example/"+long+"?"+long[:1000])
+	add("unicode-host", "ws://évil.example/x", "ws://evil。example/x", "ws://xn--vil-9la.example/x", "ws://evil.example /x")
+	add("whitespace", " /x", "/x ", "\t/x", "ws://evil.example /x", "/x y?z w", "ws:// evil.example/x")
+	add("query-tricks", "/x?url=ws://evil.example/", "/x?@evil.example", "/x?#", "/?", "/x?a=1&a=2&=&", "/x?%00", "/x??")
+	return out
+}
+
+var c13Specials = []string{":", "/", "?", "#", "[", "]", "@", "!", "$", "&", "'", "(", ")", "*", "+", ",", ";", "=", "%", "\\", " ", "\t", "\r", "\n", "\x00",
+	"%2f", "%2F", "%00", "%25", "%zz", "..", "//", "://", "@evil.example", "evil.example", ":80", "ws:", "\xff", " ", "?#", "[::1]"}
+
+func c13Mutate(rng *rand.Rand, corpus []c13Entry) c13Entry {
+	base := corpus[rng.Intn(len(corpus))]
+	s := base.url
+	if len(s) > 300 {
+		s = s[:150] + s[len(s)-100:]
+	}
+	for n := 1 + rng.Intn(3); n > 0; n-- {
+		switch rng.Intn(5) {
+		case 0: // splice with another entry
+			o := corpus[rng.Intn(len(corpus))].url
+			if len(o) > 200 {
+				o = o[:200]
+			}
+			s = s[:rng.Intn(len(s)+1)] + o[rng.Intn(len(o)+1):]
+		case 1, 2: // insert a special
+			at := rng.Intn(len(s) + 1)
+			s = s[:at] + c13Specials[rng.Intn(len(c13Specials))] + s[at:]
+		case 3: // delete a byte
+			if len(s) > 0 {
+				at := rng.Intn(len(s))
+				s = s[:at] + s[at+1:]
+			}
+		case 4: // duplicate a slice
+			if len(s) > 1 {
+				a := rng.Intn(len(s))
+				b := a + rng.Intn(len(s)-a)
+				s = s[:b] + s[a:b] + s[b:]
+			}
+		}
+	}
+	return c13Entry{"mutated:" + base.class, s}
+}
+
+// c13NonShim builds the pass-through requests: ordinary paths and near
+// misses of the shim prefix. Only clean paths (ServeMux redirects the others
+// by itself).
+func c13NonShim(rng *rand.Rand, n int, seed int64) []c13Case {
+	type tgt struct {
+		class, shimPath, target string
+		info                    bool
+	}
+	var tgts []tgt
+	for _, sp := range []string{"shim", "ws-shim/v1"} {
+		p := "/" + sp
+		tgts = append(tgts,
+			tgt{"ordinary", sp, "/", false}, tgt{"ordinary", sp, "/index.html", false}, tgt{"ordinary", sp, "/api/kernels?x=1&y=%2F", false},
+			tgt{"ordinary", sp, "/a/b/c.d;e=f", false}, tgt{"ordinary", sp, "/a%20b/%E4%B8%AD?q=a+b", false},
+			tgt{"near-miss:suffix", sp, p + "x/open", false}, tgt{"near-miss:suffix", sp, p + "-open", false}, tgt{"near-miss:suffix", sp, p + "open", false}, tgt{"near-miss:suffix", sp, p + ".d/open", false},
+			tgt{"near-miss:truncated", sp, p[:len(p)-1] + "/open", false},
+			tgt{"near-miss:nested", sp, "/a" + p + "/open", false}, tgt{"near-miss:nested", sp, "/x" + p + "/data", false}, tgt{"near-miss:nested", sp, "/api" + p, false},
+			tgt{"near-miss:case", sp, strings.ToUpper(p) + "/open", false}, tgt{"near-miss:case", sp, "/" + strings.ToUpper(sp[:1]) + sp[1:] + "/poll", false},
+			tgt{"near-miss:endpoint-without-prefix", sp, "/open", false}, tgt{"near-miss:endpoint-without-prefix", sp, "/data", false}, tgt{"near-miss:endpoint-without-prefix", sp, "/poll", false}, tgt{"near-miss:endpoint-without-prefix", sp, "/close", false},
+			tgt{"near-miss:in-query", sp, "/x?" + p + "/open", false}, tgt{"near-miss:in-query", sp, "/?next=" + p + "/close", false},
+			// how an encoded prefix is routed is ServeMux's business (and differs between its two generations): observed, not judged
+			tgt{"encoded-prefix", sp, p + "%2Fopen", true}, tgt{"encoded-prefix", sp, "/%73" + p[2:] + "/open", true}, tgt{"encoded-prefix", sp, p + "%2fdata", true},
+		)
+		if sp == "ws-shim/v1" {
+			tgts = append(tgts, tgt{"near-miss:parent", sp, "/ws-shim", false}, tgt{"near-miss:parent", sp, "/ws-shim/open", false}, tgt{"near-miss:parent", sp, "/ws-shim/v2/open", false}, tgt{"near-miss:parent", sp, "/ws-shim/v1x/open", false}, tgt{"near-miss:parent", sp, "/ws-shim/v/1/open", false})
+		}
+	}
+	methods := []string{"GET", "POST", "PUT", "DELETE", "PATCH", "OPTIONS", "HEAD"}
+	statuses := []int{200, 201, 204, 301, 304, 400, 404, 500, 503}
+	hdrPool := [][2]string{{"Accept", "text/html,*/*;q=0.8"}, {"Cookie", "a=b; c=d"}, {"X-Websocket-Shim-Version", "1"}, {"Upgrade", "websocket"}, {"Connection", "Upgrade"},
+		{"X-Multi", "one"}, {"X-Multi", "two"}, {"x-lower", "v"}, {"Content-Type", "application/json"}, {"Origin", "https://client.example"}, {"Sec-Websocket-Key", "dGhlIHNhbXBsZSBub25jZQ=="}}
+	var out []c13Case
+	for i := 0; i < n; i++ {
+		t := tgts[i%len(tgts)]
+		c := c13Case{ID: fmt.Sprintf("n%d-%d", seed, i), Kind: "nonshim", Class: t.class, ShimPath: t.shimPath, Target: t.target, Info: t.info,
+			Method: methods[rng.Intn(len(methods))], Status: statuses[rng.Intn(len(statuses))], Host: []string{"client.example", "app.internal:8080"}[rng.Intn(2)],
+			Rewrite: rng.Intn(2) == 0, Seed: rng.Int63()}
+		if i < len(tgts) {
+			c.Method = []string{"POST", "GET"}[i%2] // every target at least once with the shim's own method
+		}
+		for _, kv := range hdrPool {
+			if rng.Intn(3) == 0 {
+				c.Headers = append(c.Headers, kv)
+			}
+		}
+		body := make([]byte, []int{0, 0, 5, 300, 5000}[rng.Intn(5)])
+		rng.Read(body)
+		if rng.Intn(3) == 0 {
+			body = []byte("ws://evil.example/looks/like/an/open/body")
+		}
+		c.B64 = base64.StdEncoding.EncodeToString(body)
+		out = append(out, c)
+	}
+	return out
+}
+
+// C13 — the websocket shim only ever connects to the configured backend.
 func C13(r *core.Run) {
-	r.Broken("check not implemented yet")
-	r.Finish(1)
+	r.Level = "exploration"
+	r.SetRule("websockets.Proxy driven in-process (race-built worker, agent's GODEBUG defaults, real gorilla backend, one case at a time per process); observation: every (network,address) handed to websocket.DefaultDialer.NetDialContext, plus request URI and Host the backend's websocket server received. Open bodies: an enumerated corpus of URL syntax classes (absolute ws/wss/http/other, scheme-relative, path-only, opaque, empty, userinfo, IP literals, ports, percent-encoded hosts, back-slashes, odd slashes, fragments, CR/LF, very long, unicode hosts, whitespace, query tricks), seeded mutations (splice, insert special, delete, duplicate) and random byte / ASCII strings, each with rewriteWebsocketHost on and off. Pass-through: requests for ordinary paths and near misses of the shim prefix (two shim paths), random methods/headers/bodies/scripted responses; class = URL syntax class | near-miss class")
+	r.Assume("expected request URI = net/url's escaped path (\"/\" prefixed when missing) + \"?\" + raw query of the supplied URL; how a percent-encoded spelling of the prefix (/shim%2Fopen, /%73him/open) is routed is left to ServeMux and only recorded; paths ServeMux redirects by itself are not generated; the syscall-level (strace) sample of DESIGN.md is not run: the dial hook sees every address before the socket is created")
+	bin := r.MustBuild(r.BuildWorker())
+	godebug := "GODEBUG=" + shimGodebug(r)
+	corpus := c13Corpus()
+	rng := r.Rand("c13")
+	var entries []c13Entry
+	entries = append(entries, corpus...)
+	nURL := r.Pick(400, 30000)
+	for len(entries) < nURL {
+		switch k := rng.Intn(10); {
+		case k < 8:
+			entries = append(entries, c13Mutate(rng, corpus))
+		case k == 8:
+			b := make([]byte, rng.Intn(40))
+			rng.Read(b)
+			entries = append(entries, c13Entry{"random-bytes", string(b)})
+		default:
+			const abc = "abcwsx:/?#[]@%.0123456789-_~!$&'()*+,;= \\"
+			b := make([]byte, rng.Intn(40))
+			for i := range b {
+				b[i] = abc[rng.Intn(len(abc))]
+			}
+			entries = append(entries, c13Entry{"random-ascii", string(b)})
+		}
+	}
+	var cases []c13Case
+	byID := map[string]c13Case{}
+	bodyOf := map[string]string{}
+	for i, e := range entries {
+		c := c13Case{ID: fmt.Sprintf("u%d-%d", r.Seed, i), Kind: "url", Class: e.class, B64: base64.StdEncoding.EncodeToString([]byte(e.url)),
+			Rewrite: i%2 == 1, Host: []string{"client.example", "evil-host.example:8080"}[(i/2)%2]}
+		cases = append(cases, c)
+		bodyOf[c.ID] = e.url
+	}
+	cases = append(cases, c13NonShim(rng, r.Pick(100, 3000), r.Seed)...)
+	if r.OnlyCase >= 0 && r.OnlyCase < len(cases) {
+		cases = cases[r.OnlyCase : r.OnlyCase+1]
+	}
+	var generic []interface{}
+	for _, c := range cases {
+		byID[c.ID] = c
+		generic = append(generic, c)
+	}
+	lines, crashes := shimRun(r, bin, "c13", generic, 8, nil, 10*time.Minute, godebug)
+	shimJudgeCrashes(r, crashes)
+
+	hits := map[string]int64{}
+	dialAddrs := map[string]int{}
+	statusMix := map[string]int{}
+	seen := map[string]bool{}
+	connected, parseErr, noDial, reached, infoShim := 0, 0, 0, 0, 0
+	samples := map[string]int{}
+	for _, ln := range lines {
+		if shimAddHits(hits, ln) {
+			continue
+		}
+		var res c13Result
+		if json.Unmarshal(ln, &res) != nil || res.ID == "" {
+			continue
+		}
+		c := byID[res.ID]
+		seen[res.ID] = true
+		if res.Note != "" && strings.HasPrefix(res.Note, "harness") {
+			r.Inconclusive(res.ID + ": " + res.Note)
+			continue
+		}
+		if c.Kind == "url" {
+			outcome := fmt.Sprintf("%d", res.Status)
+			if res.Connected {
+				outcome += "+connected"
+				connected++
+			}
+			if len(res.Dials) == 0 {
+				noDial++
+			}
+			if res.ParseErr {
+				parseErr++
+			}
+			r.Case(fmt.Sprintf("url:%s|rewrite=%v|%s", c.Class, c.Rewrite, outcome))
+			statusMix[outcome]++
+			for _, d := range res.Dials {
+				dialAddrs[d]++
+			}
+			if res.Status == 0 {
+				r.Inconclusive(fmt.Sprintf("%s: %s", res.ID, res.Note))
+			}
+			if samples[c.Class] == 0 && len(samples) < 6 && res.Connected && !strings.HasPrefix(c.Class, "mutated") {
+				samples[c.Class]++
+				r.Sample(map[string]interface{}{"class": c.Class, "open_body": core.Trunc(bodyOf[c.ID], 120), "rewrite_host": c.Rewrite, "status": res.Status, "dialled": res.Dials, "backend_saw_uri": core.Trunc(res.URI, 120), "expected_uri": res.Want})
+			}
+		} else {
+			how := "forwarded"
+			if !res.Reached {
+				how = "not-forwarded"
+			}
+			if res.Reached {
+				reached++
+			} else if c.Info {
+				infoShim++
+				how = "handled-by-shim"
+			}
+			r.Case(fmt.Sprintf("pass-through:%s|shim=%s|%s", c.Class, c.ShimPath, how))
+		}
+		for _, v := range res.Violations {
+			sig, msg := shimSplit(v)
+			r.Violate(sig, msg, map[string]interface{}{"case": c, "open_body": core.Trunc(bodyOf[c.ID], 400)}, res)
+		}
+	}
+	for _, c := range cases {
+		if !seen[c.ID] {
+			r.Inconclusive("no result for case " + c.ID + " (worker died?)")
+		}
+	}
+	r.Set("urls_tried", len(entries))
+	r.Set("corpus_entries", len(corpus))
+	r.Set("opens_connected_to_backend", connected)
+	r.Set("opens_rejected_by_url_parser", parseErr)
+	r.Set("opens_without_any_dial", noDial)
+	r.Set("distinct_dial_addresses", len(dialAddrs))
+	r.Set("dial_addresses", dialAddrs)
+	r.Set("open_outcomes", statusMix)
+	r.Set("pass_through_requests_forwarded", reached)
+	r.Set("encoded_prefix_requests_handled_by_shim", infoShim)
+	r.Set("hook_hits", hits)
+	r.Set("strace_sample", "skipped")
+	r.JudgeRaces(core.ParseRaceLogs(filepath.Join(r.WorkDir, "race-")))
+	minCases := r.Pick(480, 32000)
+	if r.OnlyCase >= 0 {
+		minCases = 1
+	}
+	r.Finish(minCases)
 }
